@@ -194,7 +194,12 @@ def r3_same_decision_same_accessor(ctx):
     ig = ix.func(LZ, "ItemGetter.__call__")
     calls = [c for c in func_calls(ig.node) if u(c.func) == "self._buffer.get_field_by_number"]
     nm = ig.params[1]
-    ok = len(calls) == 1 and [sym.canon(a) for a in calls[0].args] == [f"self._field_dict[{nm}][0]", f"self._field_dict[{nm}][1]"]
+    envi = dict(local_env(ig.node))
+    for x in body_walk(ig.node):      # `nr, tp = self._field_dict[name]`: element i of the right-hand side
+        if isinstance(x, ast.Assign) and isinstance(x.targets[0], ast.Tuple) and all(isinstance(e_, ast.Name) for e_ in x.targets[0].elts):
+            for i_, e_ in enumerate(x.targets[0].elts):
+                envi[e_.id] = ast.Subscript(value=x.value, slice=ast.Constant(value=i_), ctx=ast.Load())
+    ok = len(calls) == 1 and [sym.canon(inline_locals(a, envi)) for a in calls[0].args] == [f"self._field_dict[{nm}][0]", f"self._field_dict[{nm}][1]"]
     ctx.ob(ig.where, "the lazy item getter asks the buffer for (field index, declared type) of the named field", ok, "", key="C05-R3|itemgetter")
     init = ix.func(LZ, "ItemGetter.__init__")
     ok = "self._field_dict = {field.name: (i, field.type) for i, field in enumerate(dataclasses.fields(dataclass))}" in u(init.node)
